@@ -490,6 +490,13 @@ def k5_loop(sr, drv, G, W, U, R, ntrees: int, gen_cases, on_case=None, spec_for=
                     n = min(cut, len(ev))
                     if ev[:n] != mev[:n]:
                         sr.disagree({'stream': 'K5-prefix', **c.to_json(G, t), 'code': ev[:8], 'model': mev[:8]})
+                elif st == 'timeout' and ms == 'ok':
+                    # the real walk did not finish within its time limit (nested quantifiers: exponential backtracking in `re`, a cost
+                    # matter, not one of the properties); what it produced before must be a prefix of the model's events
+                    sr.histogram['code-timeout (prefix compared, not a verdict)'] = sr.histogram.get('code-timeout (prefix compared, not a verdict)', 0) + 1
+                    n = min(len(ev), len(mev))
+                    if ev[:n] != mev[:n]:
+                        sr.disagree({'stream': 'K5-prefix', **c.to_json(G, t), 'code': ev[:8], 'model': mev[:8]})
                 else:
                     sr.disagree({'stream': 'K5', **c.to_json(G, t), 'code': (st, len(ev)), 'model': (ms, len(mev))})
                 if on_case:
